@@ -56,8 +56,20 @@ pub fn cmd_gen(args: &[String]) -> i32 {
         let r = s.new_tree(&mut runner).expect("generate").current();
         writeln!(f, "{}", r.to_json()).unwrap();
     }
+    // a fixed grid first: every size regime of the variable-time algorithms (Straus < 190 <= Pippenger with
+    // w = 6 below 500, w = 7 below 800, w = 8 from 800) under each variable-time entry point - so that no regime
+    // is left to chance (the seeded change C11d, radix-256 digit -128 in the serial Pippenger, was met by the
+    // random large cases only about every second run)
+    let mut done = 0;
+    if large > 0 {
+        for (n, kind) in [(189usize, 1u8), (190, 1), (500, 4), (800, 1), (1000, 2), (800, 4), (190, 0)] {
+            let r = props::c04::msm_fixed(n, kind).new_tree(&mut runner).expect("generate").current();
+            writeln!(f, "{}", r.to_json()).unwrap();
+            done += 1;
+        }
+    }
     let l = large_strategy();
-    for _ in 0..large {
+    for _ in done..large.max(done) {
         let r = l.new_tree(&mut runner).expect("generate").current();
         writeln!(f, "{}", r.to_json()).unwrap();
     }
